@@ -29,7 +29,7 @@ ASSUMPTIONS = ["simnet transport model; test configuration", "all delivered bloc
 MIN_NONTRIVIAL = {"quick": 20, "thorough": 400}
 
 KINDS = ["valid", "valid", "valid", "valid2", "conflict", "repeat", "missing", "other_fork", "spent", "wrong_key", "placeholder",
-         "out_changed", "zero_out", "overspend", "no_inputs", "no_outputs", "null_ref", "ref_twice", "over_max"]
+         "out_changed", "sig_transplant", "sig_transplant", "zero_out", "overspend", "no_inputs", "no_outputs", "null_ref", "ref_twice", "over_max"]
 
 
 def tx_valid(tx, utxo):
@@ -182,6 +182,23 @@ class Exec:
         if kind == "placeholder":
             tx = signed([r], [(o[0], KEYS[c % len(KEYS)].pub)])
             tx.ins = [(r[0], r[1], ("se",) if b_ % 2 else ("cb", 0, b"x"))]
+            return tx.touch()
+        if kind == "sig_transplant":
+            # a signature this node HAS ALREADY VERIFIED (it sits in a pooled transaction of the same key) is re-presented on
+            # a spend of ANOTHER output of that key: same key, genuine signature bytes, different message
+            cands = []
+            for t in self.pool:
+                for (h0, i0, s0) in t.ins:
+                    o0 = utxo.get((h0, i0))
+                    if o0 is not None and s0[0] == "sig":
+                        for r2, o2 in free:
+                            if o2[1] == o0[1] and r2 != (h0, i0):
+                                cands.append((s0, r2, o2))
+            x2 = pick(cands, a)
+            if x2 is None:
+                return None
+            s0, r2, o2 = x2
+            tx = R.RTx([(r2[0], r2[1], s0)], [(o2[0], KEYS[c % len(KEYS)].pub)])
             return tx.touch()
         if kind == "out_changed":
             tx = signed([r], [(o[0], KEYS[c % len(KEYS)].pub)])
